@@ -22,13 +22,21 @@ var synEntries = [][]spec.SynEntry{
 	{{Term: "a", Syns: []string{"x", "x"}}},
 }
 
-// NumSynDocKinds = 1 ordinary + 2 thesauri x 7 entry shapes.
-var NumSynDocKinds = 1 + 2*len(synEntries)
+// threeTerms: a definition document with three left-hand terms (kinds 15 / 16, appended
+// after the original numbering so that existing kind numbers keep their meaning).
+var threeTerms = []spec.SynEntry{{Term: "a", Syns: []string{"x"}}, {Term: "c", Syns: []string{"z", "x"}}, {Term: "b", Syns: []string{"y"}}}
+
+// NumSynDocKinds = 1 ordinary + 2 thesauri x 7 entry shapes + 2 thesauri x the three-term shape.
+var NumSynDocKinds = 1 + 2*len(synEntries) + 2
 
 func SynDoc(i int, kind int) spec.Doc {
 	id := fmt.Sprintf("d%d", i)
 	if kind == 0 {
 		return spec.Doc{ID: id, Fields: []spec.Field{{Name: "f", Len: 1, Stored: true, Value: []byte("x"), Toks: []spec.Tok{{Term: "x", Freq: 1}}}}}
+	}
+	if kind > 2*len(synEntries) {
+		name := []string{"s1", "s2"}[kind-2*len(synEntries)-1]
+		return spec.Doc{ID: id, IDLast: true, Fields: []spec.Field{{Name: name, Kind: spec.Synonym, Syn: threeTerms}}}
 	}
 	k := kind - 1
 	name := []string{"s1", "s2"}[k/len(synEntries)]
@@ -68,7 +76,7 @@ func SynBatches(tier string, emit func(SynCase)) {
 	}
 	if tier == "thorough" {
 		// N=4: two ordinary documents around two synonym documents, and 4 synonym docs of a reduced menu
-		ProductOf(4, []int{0, 1, 2, 4, 6, 9, 11, 12}, func(v []int) {
+		ProductOf(4, []int{0, 1, 2, 4, 6, 9, 11, 12, 15}, func(v []int) {
 			c := SynCase{Docs: v, Mode: 2}
 			if c.NumSynDocs() > 0 {
 				emit(c)
